@@ -57,10 +57,11 @@ func main() {
 	r := evidence.New("C19", "exploration")
 	r.Rule("case = (entry point ∈ {PackManifest v1.0, v1.1, unsupported version, Pack image, Pack artifact}, artifact type ∈ {valid RFC 6838 names incl. lengths 1/127, invalid by each rule incl. 128, empty}, " +
 		"config descriptor given (valid / invalid / empty-JSON media type, content possibly exactly {} under a custom type) | config annotations | neither, layers nil / empty / 1..4 with duplicates, subject absent / plain / carrying artifactType, annotations, platform, urls, data (stored subject must equal the requested descriptor in every field), manifest annotations nil / empty / some with created absent / valid / malformed / empty / edge, " +
-		"target ∈ {memory, oci, file, remote, pusher-only} empty or already holding the placeholder blobs / the whole result, supplied blobs pre-pushed or not); every target is wrapped in a recorder. " +
+		"target ∈ {memory, oci, file, remote, pusher-only} empty or already holding the placeholder blobs / the whole result, supplied blobs pre-pushed or not, " +
+		"race mode ∈ {quiet, racing writer: Exists says absent and the {} blob is stored just before the library's Push is forwarded, twin: an identical call runs concurrently and both rendezvous in Exists}); every target is wrapped in a recorder. " +
 		"Success: FetchAll(returned descriptor), parse, field-by-field comparison with an independent builder, existence of invented blobs, CopyGraph into an empty memory store, identical descriptor on repeat with fixed created. " +
-		"Documented rejections: no Push seen (no manifest Push for malformed created). distinct = (entry, artifact-type class, config class, layers class, subject, annotation class, created class, target, preload); " +
-		"non-trivial = a success that was fetched, parsed and compared, or a judged rejection observed through the recorder")
+		"Documented rejections: no Push seen (no manifest Push for malformed created). distinct = (entry, artifact-type class, config class, layers class, subject, annotation class, created class, target, preload, race mode); " +
+		"racing modes must succeed exactly like the quiet one (same oracles, same descriptor as a quiet fresh target when created is fixed). non-trivial = a success that was fetched, parsed and compared, or a judged rejection observed through the recorder")
 	r.Assume("created values are judged only when clearly valid (calendar-valid, hour ≤ 23, minute/second ≤ 59, Z or ±hh:mm) or clearly malformed; leap seconds, lower-case t/z, calendar-invalid days are not judged")
 	r.Assume("the deprecated Pack does not document media-type validation: its artifact type is not judged for rejection")
 	r.Assume("an unsupported PackManifestVersion is only recorded (the statement does not mention it)")
@@ -82,6 +83,48 @@ type recorder struct {
 	mu    sync.Mutex
 	inner content.Storage
 	calls []call
+	// race: "" quiet; "writer": for the blobs the library invents ({} content)
+	// Exists answers false and, just before a Push is forwarded, the wrapper
+	// itself stores the same content (a racing writer won: the library's Push
+	// meets whatever the target says about duplicates); "twin": Exists is
+	// truthful but two identical calls rendezvous in it, so both see "absent".
+	race string
+	bar  *barrier
+}
+
+// barrier is a two-party rendezvous without clocks; release() opens it for good
+// (a party that returned can no longer arrive).
+type barrier struct {
+	mu   sync.Mutex
+	n    int
+	ch   chan struct{}
+	quit chan struct{}
+	once sync.Once
+}
+
+func newBarrier() *barrier { return &barrier{ch: make(chan struct{}), quit: make(chan struct{})} }
+
+func (b *barrier) arrive() {
+	b.mu.Lock()
+	ch := b.ch
+	b.n++
+	if b.n == 2 {
+		b.n = 0
+		close(b.ch)
+		b.ch = make(chan struct{})
+	}
+	b.mu.Unlock()
+	select {
+	case <-ch:
+	case <-b.quit:
+	}
+}
+
+func (b *barrier) release() { b.once.Do(func() { close(b.quit) }) }
+
+// invented reports whether d is a blob PackManifest / Pack makes up itself: the two bytes {}.
+func invented(d ocispec.Descriptor) bool {
+	return d.Size == 2 && d.Digest == emptyDesc.Digest && !isManifestType(d.MediaType)
 }
 
 func (r *recorder) log(op string, d ocispec.Descriptor, err error) {
@@ -95,6 +138,9 @@ func (r *recorder) log(op string, d ocispec.Descriptor, err error) {
 }
 
 func (r *recorder) Push(c context.Context, d ocispec.Descriptor, rd io.Reader) error {
+	if r.race == "writer" && invented(d) {
+		_ = r.inner.Push(c, d, strings.NewReader("{}")) // the racing writer gets there first
+	}
 	err := r.inner.Push(c, d, rd)
 	r.log("push", d, err)
 	return err
@@ -102,6 +148,14 @@ func (r *recorder) Push(c context.Context, d ocispec.Descriptor, rd io.Reader) e
 func (r *recorder) Exists(c context.Context, d ocispec.Descriptor) (bool, error) {
 	ok, err := r.inner.Exists(c, d)
 	r.log("exists", d, err)
+	if invented(d) {
+		switch r.race {
+		case "writer":
+			ok = false // it was absent when asked
+		case "twin":
+			r.bar.arrive() // both callers have their answer before either pushes
+		}
+	}
 	return ok, err
 }
 func (r *recorder) Fetch(c context.Context, d ocispec.Descriptor) (io.ReadCloser, error) {
@@ -293,6 +347,7 @@ type caseIn struct {
 	CreatedValue string
 	Target       string
 	Preload      string            // "none", "placeholders", "other-type", "supplied-missing"
+	Race         string            // "quiet", "writer", "twin" (see recorder)
 	blobs        map[string][]byte // digest -> content of supplied blobs
 }
 
@@ -562,6 +617,10 @@ func genCase(rng *rand.Rand) *caseIn {
 	}
 	c.Target = pick(rng, []string{"memory", "memory", "oci", "oci", "file", "remote", "pusher-only"})
 	c.Preload = pick(rng, []string{"none", "none", "none", "placeholders", "placeholders", "other-type", "supplied-missing"})
+	c.Race = pick(rng, []string{"quiet", "quiet", "quiet", "quiet", "quiet", "writer", "writer", "twin"})
+	if c.Target == "pusher-only" {
+		c.Race = "quiet" // no Exists to race with
+	}
 	if c.Target == "remote" && c.Preload == "supplied-missing" {
 		c.Preload = "none" // the registry model (like real registries) refuses manifests naming absent blobs
 	}
@@ -749,7 +808,7 @@ func describe(c *caseIn) map[string]any {
 	m := map[string]any{
 		"entry": c.Entry, "version": c.Version, "artifactType": c.ArtifactType, "config": c.Config, "configAnnotations": c.ConfigAnn,
 		"layers": c.Layers, "layersClass": c.LayersClass, "subject": c.Subject, "manifestAnnotations": c.Ann, "created": c.Created,
-		"target": c.Target, "preload": c.Preload,
+		"target": c.Target, "preload": c.Preload, "race": c.Race,
 	}
 	return m
 }
@@ -808,7 +867,7 @@ func runCase(phase string, i int) (res worker.Result) {
 	c := genCase(rng)
 	e := expect(c)
 	w := describe(c)
-	res.Key = strings.Join([]string{c.Entry, c.ATClass, c.ConfigClass, c.LayersClass, c.SubjectClass, c.AnnClass, c.Created, c.Target, c.Preload}, "|")
+	res.Key = strings.Join([]string{c.Entry, c.ATClass, c.ConfigClass, c.LayersClass, c.SubjectClass, c.AnnClass, c.Created, c.Target, c.Preload, c.Race}, "|")
 	res.Observe("entry_x_outcome", c.Entry+"/"+e.Reject+e.Unjudged)
 	res.Observe("target_x_preload", c.Target+"/"+c.Preload)
 	res.Count("cases_target_"+c.Target, 1)
@@ -882,7 +941,33 @@ func runCase(phase string, i int) (res worker.Result) {
 	if c.Target == "pusher-only" {
 		pusher = pusherOnly{rec}
 	}
+	var twinDesc ocispec.Descriptor
+	var twinErr error
+	twinDone := make(chan struct{})
+	switch c.Race {
+	case "writer":
+		rec.race = "writer"
+	case "twin":
+		rec.race, rec.bar = "twin", newBarrier()
+		go func() {
+			defer close(twinDone)
+			defer rec.bar.release()
+			defer func() {
+				if p := recover(); p != nil {
+					twinErr = fmt.Errorf("panic in the concurrent twin call: %v", p)
+				}
+			}()
+			twinDesc, twinErr = invoke(c, pusher)
+		}()
+	}
+	res.Count("race_mode_"+c.Race, 1)
 	desc, err := invoke(c, pusher)
+	if c.Race == "twin" {
+		rec.bar.release()
+		<-twinDone
+		w["twin_error"] = fmt.Sprint(twinErr)
+		w["twin_returned"] = twinDesc
+	}
 	calls := rec.take()
 	w["calls"] = calls
 	w["error"] = fmt.Sprint(err)
@@ -929,8 +1014,27 @@ func runCase(phase string, i int) (res worker.Result) {
 			res.Count("unjudged_created_rejected", 1)
 			return res
 		}
-		res.Violate("valid-input-rejected", fmt.Sprintf("%s failed on an input with no documented reason for rejection: %v", c.Entry, err), w)
+		key := "valid-input-rejected"
+		if c.Race != "quiet" {
+			key += ":race-" + c.Race // check-then-push: the blob appeared between Exists and Push
+		}
+		res.Violate(key, fmt.Sprintf("%s failed on an input with no documented reason for rejection (target %s, %s): %v", c.Entry, c.Target, c.Race, err), w)
 		return res
+	}
+	if c.Race == "twin" && e.Unjudged == "" {
+		if twinErr != nil {
+			res.Violate("valid-input-rejected:race-twin", fmt.Sprintf("the concurrent identical %s call failed: %v", c.Entry, twinErr), w)
+			return res
+		}
+		if _, ferr := content.FetchAll(ctx, tgt, twinDesc); ferr != nil {
+			res.Violate("result-not-stored", "result of the concurrent identical call cannot be fetched: "+ferr.Error(), w)
+			return res
+		}
+		if c.Created == "valid" && !reflect.DeepEqual(normDesc(twinDesc), normDesc(desc)) {
+			res.Violate("not-deterministic", "two concurrent identical calls with a fixed created time returned different descriptors", w)
+			return res
+		}
+		res.Count("twin_calls_checked", 1)
 	}
 	if e.Unjudged != "" {
 		res.Count("unjudged_created_accepted", 1)
